@@ -63,7 +63,10 @@ def degenerate():
 def spaces(tier, seed):
     S = strings()
     modes = range(len(MODES)) if tier == "thorough" else [0, 1, 2, 3, 7, 8, 9]
-    return [Product("strings-x-parsers-x-modes", {"s": range(len(S)), "pc": list(PCS), "mode": modes},
+    special = [i for i, x in enumerate(S) if x[0] in ("degenerate", "degenerate-dmy") or (x[0] == "gen" and x[1] == "en")]
+    return [Product("lenient-strict-lenient", {"s": special, "pc": list(PCS), "mode": [0, 1, 2, 3]},
+                    note="three calls in one case: unrestricted, restricted, unrestricted again - what a restricted call refused or accepted must not change a later unrestricted result"),
+            Product("strings-x-parsers-x-modes", {"s": range(len(S)), "pc": list(PCS), "mode": modes},
                     note="%d generated + %d corpus strings" % (sum(1 for x in S if x[0] == "gen"), sum(1 for x in S if x[0] == "corpus")))]
 
 
@@ -115,6 +118,14 @@ def run_case(sub, c):
         extra["STRICT_PARSING"] = True
     required = ("day", "month", "year") if kind.startswith("strict") else tuple(req)
     gen = src in ("gen", "degenerate-dmy")
+    if sub == "lenient-strict-lenient":
+        a1 = _parse(s, lang, c["pc"], B1, {}, gen)
+        rr = _parse(s, lang, c["pc"], B1, extra, gen)
+        a2 = _parse(s, lang, c["pc"], B1, {}, gen)
+        if a1 == a2:
+            return "same", isinstance(a1, datetime), None
+        return "bad", True, {"cls": {"form": src, "pc": c["pc"], "mode": kind, "problem": "an unrestricted result changed after a restricted call"},
+                             "expected": a1, "observed": a2, "detail": {"string": s, "language": lang, "restricted_call": extra, "restricted_result": rr, "parsers": PCS[c["pc"]]}}
     u1, u2 = unrestricted(c["s"], s, lang, c["pc"], gen)
     r1 = _parse(s, lang, c["pc"], B1, extra, gen)
     r2 = _parse(s, lang, c["pc"], B2, extra, gen)
